@@ -235,14 +235,37 @@ func (e *erasureCodingPartStore) PutPart(ctx context.Context, tx database.Tx, pa
 	pipeReaders := make([]*io.PipeReader, e.totalShards)
 	pipeWriters := make([]*io.PipeWriter, e.totalShards)
 	errCh := make(chan error, e.totalShards)
+	started := 0
+	// fail aborts every shard upload and waits for the inner stores to return
+	// (they use tx) before the error is handed to the caller.
+	fail := func(err error) error {
+		for _, pw := range pipeWriters {
+			if pw != nil {
+				_ = pw.CloseWithError(err)
+			}
+		}
+		for i := 0; i < started; i++ {
+			<-errCh
+		}
+		return err
+	}
 	for i := 0; i < e.totalShards; i++ {
 		pr, pw := io.Pipe()
 		pipeReaders[i], pipeWriters[i] = pr, pw
-		go func(idx int) {
-			errCh <- e.partStores[idx].PutPart(ctx, tx, partId, pr)
-		}(i)
+		started++
+		go func(idx int, pr *io.PipeReader) {
+			err := e.partStores[idx].PutPart(ctx, tx, partId, pr)
+			// An inner store that stopped reading (it failed) must not leave
+			// the encoder blocked in a pipe write forever.
+			if err != nil {
+				_ = pr.CloseWithError(err)
+			} else {
+				_ = pr.Close()
+			}
+			errCh <- err
+		}(i, pr)
 		if _, err := pipeWriters[i].Write(e.shardHeader(i)); err != nil {
-			return err
+			return fail(err)
 		}
 	}
 
@@ -252,10 +275,7 @@ func (e *erasureCodingPartStore) PutPart(ctx context.Context, tx database.Tx, pa
 	for {
 		n, readErr := io.ReadFull(reader, stripeBuf)
 		if readErr != nil && !errors.Is(readErr, io.EOF) && !errors.Is(readErr, io.ErrUnexpectedEOF) {
-			for _, pw := range pipeWriters {
-				_ = pw.CloseWithError(readErr)
-			}
-			return readErr
+			return fail(readErr)
 		}
 		if n == 0 {
 			break
@@ -278,19 +298,16 @@ func (e *erasureCodingPartStore) PutPart(ctx context.Context, tx database.Tx, pa
 			copy(shards[i], stripeBuf[start:end])
 		}
 		if err := enc.Encode(shards); err != nil {
-			for _, pw := range pipeWriters {
-				_ = pw.CloseWithError(err)
-			}
-			return err
+			return fail(err)
 		}
 
 		for i := 0; i < e.totalShards; i++ {
 			fh := encodeFrameHeader(stripeIndex, n, shards[i])
 			if _, err := pipeWriters[i].Write(fh); err != nil {
-				return err
+				return fail(err)
 			}
 			if _, err := pipeWriters[i].Write(shards[i]); err != nil {
-				return err
+				return fail(err)
 			}
 		}
 		stripeIndex++
@@ -302,12 +319,13 @@ func (e *erasureCodingPartStore) PutPart(ctx context.Context, tx database.Tx, pa
 	for _, pw := range pipeWriters {
 		_ = pw.Close()
 	}
+	var firstErr error
 	for i := 0; i < e.totalShards; i++ {
-		if err := <-errCh; err != nil {
-			return err
+		if err := <-errCh; err != nil && firstErr == nil {
+			firstErr = err
 		}
 	}
-	return nil
+	return firstErr
 }
 
 func (e *erasureCodingPartStore) Capabilities() partstore.Capabilities {
